@@ -14,3 +14,8 @@ WRAP int64_t w_kll_image(uint8_t* out, uint64_t cap, const uint64_t* vals, uint3
   try { S s(8); for (uint32_t i = 0; i < nv; i++) s.update((int32_t)vals[i]); view(s, v); return emit(s.serialize(header), out, cap); } catch (...) { return -1; }
 }
 WRAP int w_kll_deser(const uint8_t* buf, uint64_t n, gen_view* v) { try { auto s = S::deserialize(buf, n); view(s, v); return 0; } catch (...) { return 1; } }
+// 'kllm': a k=16 sketch that merged an estimation-mode k=8 sketch (min_k = 8 < k): the first nv of the 9 items of the k=8 sketch are the harness values
+WRAP int64_t w_kllm_image(uint8_t* out, uint64_t cap, const uint64_t* vals, uint32_t nv, uint32_t header, gen_view* v) {
+  try { S b(8); for (uint32_t i = 0; i < 9; i++) b.update(i < nv ? (int32_t)vals[i] : (int32_t)(100 + 7 * i)); S a(16); a.update(5); a.merge(b); view(a, v); v->f[13] = a.min_k_; return emit(a.serialize(header), out, cap); } catch (...) { return -1; }
+}
+WRAP int w_kllm_deser(const uint8_t* buf, uint64_t n, gen_view* v) { try { auto s = S::deserialize(buf, n); view(s, v); v->f[13] = s.min_k_; return 0; } catch (...) { return 1; } }
